@@ -535,6 +535,66 @@ pub fn main(args: &[String]) {
                 }
             });
         }
+        Some("simpleglyph") => {
+            // SimpleGlyph.tla members as the point data of a one-contour glyph, through read_points_fast and points()
+            use read_fonts::tables::glyf::{PointFlags, SimpleGlyph};
+            use read_fonts::{FontData, FontRead};
+            let path = arg_after(args, "--cases").expect("--cases");
+            let trace_every: u64 = arg_after(args, "--trace-every").map(|s| s.parse().unwrap()).unwrap_or(1);
+            fvcore::tlc_stream(&path, &["SGCASE"], |_, c| {
+                rep.evaluations += 1;
+                let keep = rep.evaluations % trace_every == 0;
+                let n = c["n"].as_u64().unwrap() as usize;
+                let data: Vec<u8> = c["data"].as_array().unwrap().iter().map(|x| x.as_u64().unwrap() as u8).collect();
+                let mut g: Vec<u8> = vec![0, 1, 0, 0, 0, 0, 0, 0, 0, 0];
+                g.extend(((n - 1) as u16).to_be_bytes());
+                g.extend([0, 0]);
+                g.extend(&data);
+                let case = json!({"kind": "simple-glyph-case", "n": n, "data": data});
+                let gb = g.clone();
+                let r = guarded(move || -> Result<(Result<Vec<Vec<i64>>, String>, Vec<Vec<i64>>), String> {
+                    let sg = SimpleGlyph::read(FontData::new(&gb)).map_err(|e| format!("{e:?}"))?;
+                    let np = sg.num_points();
+                    let mut pts = vec![read_fonts::types::Point::<i32>::default(); np];
+                    let mut fl = vec![PointFlags::default(); np];
+                    let fast = sg.read_points_fast(&mut pts, &mut fl).map(|_| pts.iter().zip(&fl).map(|(p, f)| vec![p.x as i64, p.y as i64, f.is_on_curve() as i64]).collect::<Vec<_>>()).map_err(|e| format!("{e:?}"));
+                    let iter: Vec<Vec<i64>> = sg.points().take(70_000).map(|p| vec![p.x as i64, p.y as i64, p.on_curve as i64]).collect();
+                    Ok((fast, iter))
+                });
+                let want = |v: &Value| -> Vec<Vec<i64>> { v.as_array().map(|a| a.iter().map(|p| p.as_array().unwrap().iter().map(|x| x.as_i64().unwrap()).collect()).collect()).unwrap_or_default() };
+                match r {
+                    Err(p) => rep.violation(&format!("reading the points of a simple glyph panicked: {p}"), case),
+                    Ok(Err(e)) => {
+                        rep.add("glyph_header_rejected", 1);
+                        ev.push(json!({"op": "simpleglyph", "n": n, "outcome": "error", "points": 0, "why": e}));
+                    }
+                    Ok(Ok((fast, iter))) => {
+                        let model_fast = &c["fast"];
+                        let agrees = match &fast {
+                            Ok(p) => model_fast["ok"] == true && *p == want(&model_fast["points"]),
+                            Err(_) => model_fast["ok"] == false,
+                        };
+                        let strict_ok = c["strict"]["ok"] == true;
+                        // the iterator reads what the strict reading reads whenever that is defined
+                        let iter_agrees = !strict_ok || iter == want(&c["strict"]["points"]);
+                        if strict_ok {
+                            rep.add("well_formed_members", 1);
+                        }
+                        if !agrees || !iter_agrees {
+                            rep.add("outcome_differs_from_model", 1);
+                            if rep.samples.len() < 4 {
+                                rep.sample(json!({"case": case, "model": c, "fast": format!("{fast:?}"), "iter": iter}));
+                            }
+                        } else {
+                            rep.distinct += 1;
+                        }
+                        if keep || fast.as_ref().map(|p| p.len() != n).unwrap_or(false) {
+                            ev.push(json!({"op": "simpleglyph", "n": n, "outcome": if fast.is_ok() { "value" } else { "error" }, "points": fast.as_ref().map(|p| p.len()).unwrap_or(0)}));
+                        }
+                    }
+                }
+            });
+        }
         Some("cmapiter") => {
             // CmapIter.tla group lists as raw cmap subtables through the real iterators
             use read_fonts::tables::cmap::{Cmap, Cmap12IterLimits, CmapSubtable};
